@@ -249,7 +249,11 @@ def lattice_case(j, e, sigma):
                  "Twist3.exp(theta)": lambda: Twist3(U).exp(ang).A,
                  "Twist3.exp(theta,deg)": lambda: Twist3(U).exp(math.degrees(ang), "deg").A,
                  "Twist3.exp([theta])": lambda: Twist3(U).exp([ang])[0].A,
-                 "Twist3*theta.exp": lambda: (Twist3(U) * ang).exp().A}
+                 "Twist3*theta.exp": lambda: (Twist3(U) * ang).exp().A,
+                 # the same motion written with the REVERSED unit twist and the negated angle
+                 "base.trexp(-unit_vec,-theta)": lambda: b.trexp(-U, -ang),
+                 "base.trexp(-unit_matrix,-theta)": lambda: b.trexp(b.skewa(-U), -ang),
+                 "Twist3(-unit).exp(-theta)": lambda: Twist3(-U).exp(-ang).A}
         for site, fn in forms.items():
             cid = (site, k, c["n"], sigma)
             r = guard(j, site, feat, detail, cid, fn)
@@ -280,6 +284,10 @@ def lattice_case(j, e, sigma):
                  "Twist2.exp(theta,deg)": lambda: Twist2(U).exp(math.degrees(ang), "deg").A,
                  "Twist2.exp([theta])": lambda: Twist2(U).exp([ang])[0].A,
                  "Twist2*theta.exp": lambda: (Twist2(U) * ang).exp().A,
+                 "base.trexp2(-unit_vec,-theta)": lambda: b.trexp2(-U, -ang),             # clockwise unit twist (w = -1)
+                 "base.trexp2(-unit_matrix,-theta)": lambda: b.trexp2(b.skewa(-U), -ang),
+                 "base.trexp2(-unit_list,-theta)": lambda: b.trexp2([float(x) for x in -U], -ang),
+                 "Twist2(-unit).exp(-theta)": lambda: Twist2(-U).exp(-ang).A,
                  "base.trexp2(so2 unit matrix,theta)": lambda: b.rt2tr(b.trexp2(b.skew(1.0), ang), H[:2, 2]),
                  "base.trexp2(so2 unit vec,theta)": lambda: b.rt2tr(b.trexp2([1.0], ang), H[:2, 2])}
         for site, fn in forms.items():
